@@ -1,6 +1,7 @@
 import MosnVerif.Drive.Util
 import MosnVerif.Model.Shutdown
 import MosnVerif.Model.Transfer
+import MosnVerif.Model.H2GoAway
 /-! `mosnmodel` driver for C11: evaluates the models on one case line and the property predicate (`Spec…`, written
 against literal reference values, never against regenerated code) on the implementation's output. -/
 namespace MosnVerif.Drive.C11
@@ -199,7 +200,7 @@ def gsModel (proto : String) (stage : Int) (phase : String) (nconn drain hold : 
   let s0 := sysInit ((drain * tickMs : Nat) : Int) notifies refuseNew
   let pre := (List.replicate nconn Ev.connect) ++
     (if phase == "hdr" then [Ev.bytes main]
-     else if phase == "body" then (if headDecodes then [Ev.bytes main, Ev.decoded main] else [Ev.bytes main])
+     else if phase == "body" || phase == "dfr" then (if headDecodes then [Ev.bytes main, Ev.decoded main] else [Ev.bytes main])
      else if phase == "wait" || phase == "resp" then [Ev.bytes main, Ev.decoded main] else [])
   let s1 := Model.Shutdown.run s0 (pre ++ [Ev.signal stage])
   Model.Shutdown.run s1 ((List.replicate hold [Ev.exit, Ev.tick tickMs]).flatten ++ [Ev.exit])
@@ -306,8 +307,96 @@ def up (c : List String) (impl : List String) : String :=
     verdict (joinWith " " impl == out) spec out
   | _, _, _, _ => "E E bad-case"
 
+/-! ### HTTP/2 graceful stop at frame granularity (kind h2ga) -/
+section h2ga
+open MosnVerif.Model
+
+def parseGaEv (t : String) : Option H2GoAway.Ev :=
+  if t == "G" then some .shutdown else
+  let body := (t.drop 1).toString.splitOn "."
+  match t.front, body with
+  | 'H', [i, es, d] => i.toNat?.map (fun i => H2GoAway.Ev.headers i (es == "1") d.toNat?)
+  | 'D', [i, n, es] => match i.toNat?, n.toNat? with
+    | some i, some n => some (H2GoAway.Ev.data i n (es == "1"))
+    | _, _ => none
+  | 'R', [i] => i.toNat?.map H2GoAway.Ev.rst
+  | _, _ => none
+
+def gaOutTok : H2GoAway.Out → String
+  | .deliver id b => s!"d{id}:{b}"
+  | .goAway last code => s!"g{last}:{code}"
+  | .rst id code => s!"r{id}:{code}"
+  | .closed => "x"
+
+def gaOutsTok (l : List H2GoAway.Out) : String := if l.isEmpty then "-" else joinWith "+" (l.map gaOutTok)
+
+/-- reference bookkeeping of a well-behaved client's view (RFC 7540 §5.1, §6.8; literal values, no code of MOSN):
+status of every stream the client opened, whether the server's GOAWAY has been triggered -/
+inductive GaStatus
+  | opened (bytes : Nat) (decl : Option Nat)
+  | ended | reset | refused
+deriving Inhabited
+
+structure GaRef where
+  maxSeen : Nat := 0          -- highest stream id the client used
+  lastOpen : Nat := 0         -- highest stream id opened before the go-away
+  gSeen : Bool := false
+  strms : List (Nat × GaStatus) := []
+  viol : Bool := false        -- the client broke the protocol: nothing is demanded from here on
+  ok : Bool := true
+
+def GaRef.get (r : GaRef) (id : Nat) : Option GaStatus := (r.strms.find? (fun p => p.1 == id)).map (·.2)
+def GaRef.set (r : GaRef) (id : Nat) (s : GaStatus) : GaRef :=
+  { r with strms := (id, s) :: r.strms.filter (fun p => p.1 != id) }
+
+/-- one event and what was observed for it: every request opened before the go-away whose last frame this is must
+be delivered here with its complete body and nothing else may happen (no reset, no connection error); the first
+go-away must name the highest stream opened so far with code 0 -/
+def gaRefStep (r : GaRef) (eo : H2GoAway.Ev × String) : GaRef :=
+  if r.viol then r else
+  let (e, o) := eo
+  let expect (r' : GaRef) (want : String) : GaRef := { r' with ok := r'.ok && o == want }
+  match e with
+  | .shutdown =>
+    if r.gSeen then expect r "-" else expect { r with gSeen := true } s!"g{r.lastOpen}:0"
+  | .headers id es decl =>
+    match r.get id with
+    | none =>
+      if id % 2 != 1 || id ≤ r.maxSeen then { r with viol := true }
+      else if r.gSeen then expect ({ r with maxSeen := id }.set id .refused) "-"
+      else if es then expect ({ r with maxSeen := id, lastOpen := id }.set id .ended) s!"d{id}:0"
+      else expect ({ r with maxSeen := id, lastOpen := id }.set id (.opened 0 decl)) "-"
+    | some (.opened b _) => if es then expect (r.set id .ended) s!"d{id}:{b}" else { r with viol := true }
+    | some .refused => expect r "-"
+    | some _ => { r with viol := true }
+  | .data id n es =>
+    match r.get id with
+    | some (.opened b decl) =>
+      if (match decl with | some d => decide (d < b + n) | none => false) then { r with viol := true }
+      else if es then expect (r.set id .ended) s!"d{id}:{b + n}"
+      else expect (r.set id (.opened (b + n) decl)) "-"
+    | some .refused => expect r "-"
+    | _ => { r with viol := true }
+  | .rst id =>
+    match r.get id with
+    | some (.opened _ _) | some .ended => expect (r.set id .reset) "-"
+    | some .refused => expect r "-"
+    | _ => { r with viol := true }
+
+def h2ga (evTok : String) (impl : List String) : String :=
+  match (evTok.splitOn ",").mapM parseGaEv, impl with
+  | some evs, [obsTok] =>
+    let obs := obsTok.splitOn ","
+    if obs.length != evs.length then "E E events-observations-mismatch" else
+    let model := joinWith "," ((H2GoAway.trace H2GoAway.Conn.initial evs).map gaOutsTok)
+    let ref := (evs.zip obs).foldl gaRefStep {}
+    verdict (model == obsTok) ref.ok model
+  | _, _ => "E E bad-case"
+end h2ga
+
 def run (caseToks impl : List String) : String :=
   match caseToks with
+  | ["h2ga", evs] => h2ga evs impl
   | ["th", a, b] => th a b impl
   | ["tr", d, t, r] => tr d t r impl
   | ["tw", i, d, r] => tw i d r impl
